@@ -465,8 +465,9 @@ def merge_orders(na, nb):
         yield tuple(order)
 
 
-def run_wsgi_pair(app, environs, order):
+def run_wsgi_pair(app, environs, order, call_first=False):
     """Advance the two response iterables of `app` alternately as `order` says (steps beyond an iterable's end are skipped).
+    call_first: the application is called for both requests before either iterable is advanced (a server that queues responses).
     Returns [WsgiResult, WsgiResult]."""
     results = [WsgiResult(), WsgiResult()]
     its = [None, None]
@@ -481,6 +482,9 @@ def run_wsgi_pair(app, environs, order):
             results[i].exc = e
             done[i] = True
 
+    if call_first:
+        for i in (order[0], 1 - order[0]) if order else (0, 1):
+            start(i)
     for i in order:
         if done[i]:
             continue
